@@ -138,6 +138,55 @@ class Codec:
 
         return fixmsg + SEP
 
+    def encode_retransmission(self, encoded_msg: bytes) -> bytes:
+        """Makes retransmission of already encoded message (as it was sent).
+
+        The body is kept byte for byte, only PossDupFlag=Y, OrigSendingTime and new
+        SendingTime are set (BodyLength / CheckSum recalculated). Works for any
+        message which was sent, including those decoder is not able to represent
+        (i.e. repeating groups which are unknown to protocol).
+
+        Args:
+            encoded_msg: bytes of the message (i.e. from journal)
+
+        Returns:
+            encoded retransmission (bytes)
+        """
+        soh = self.SOH.encode()
+        # skipping BeginString, BodyLength at the head and CheckSum + empty at the tail
+        fields = [f.partition(b"=") for f in encoded_msg.split(soh)[2:-2]]
+        sending_time = b""
+        for tag, _, value in fields:
+            if tag == FTag.SendingTime.encode():
+                sending_time = value
+                break
+
+        body = []
+        has_possdup = has_orig_sending_time = False
+        for tag, _, value in fields:
+            if tag == FTag.SendingTime.encode():
+                value = self.current_datetime().encode()
+            elif tag == FTag.PossDupFlag.encode():
+                value = b"Y"
+                has_possdup = True
+            elif tag == FTag.OrigSendingTime.encode():
+                has_orig_sending_time = True
+            body.append(tag + b"=" + value)
+        if not has_possdup:
+            body.append(FTag.PossDupFlag.encode() + b"=Y")
+        if not has_orig_sending_time:
+            body.append(FTag.OrigSendingTime.encode() + b"=" + sending_time)
+
+        body = soh.join(body) + soh
+        msg = (
+            b"%s=%s" % (FTag.BeginString.encode(), self.protocol.beginstring.encode())
+            + soh
+            + b"%s=%i" % (FTag.BodyLength.encode(), len(body))
+            + soh
+            + body
+        )
+        return msg + b"%s=%03i" % (FTag.CheckSum.encode(), sum(msg) % 256) + soh
+
     def decode(
         self,
         rawmsg: bytes,
